@@ -133,13 +133,13 @@ def place_import(rng, root, target_root):
 
 
 def add_siblings(rng, units):
-    """DW_AT_sibling on some DIEs that have children (pointing at the next sibling)."""
+    """DW_AT_sibling on some DIEs (mostly ones that have children, now and then a childless one), pointing at the next sibling."""
     for u in units:
         if u.root is None:
             continue
         for d in walk(u.root):
             for i, c in enumerate(d.children[:-1]):
-                if c.children and rng.random() < 0.3 and c.at("sibling") is None:
+                if (c.children or rng.random() < 0.2) and rng.random() < 0.3 and c.at("sibling") is None:
                     c.attrs.insert(0, ("sibling", "ref4", d.children[i + 1]))
 
 
